@@ -23,7 +23,15 @@ def warmup(o, rng, n=None, phos=True):
     k = n if n is not None else rng.randint(2, 6)
     # stateful scenarios first (each fills a cache / sets state that must stay unobservable), then random calls
     sty = [i + 1 for i, r in enumerate(seq) if r in "STY"]
-    scen = rng.choice(["phos", "phos", "cache", "perm", "defaults", "dist", "moves", "none"])
+    # the scenarios take turns (every one of them occurs in every run, however few objects a check warms up); a scenario that needs
+    # S/T/Y passes its turn to the next one when the sequence has none
+    global _TURN
+    order = ["phos", "dist", "cache", "perm", "moves", "defaults", "phos", "none"]
+    for _ in range(len(order)):
+        scen = order[_TURN % len(order)]
+        _TURN += 1
+        if scen not in ("phos", "dist") or (sty and phos):
+            break
     pre = []
     if scen in ("phos", "dist") and sty and phos:
         pre.append({"call": "set_phosphosites", "sites": rng.sample(sty, min(len(sty), rng.randint(1, 3)))})
@@ -120,6 +128,9 @@ def apply_call(o, c):
     return common.call(getattr(o, n))
 
 
+_TURN = 0
+
+
 WS_CHARS = [" ", "\n", "\t", "\r\n", "  ", "\u00a0", "\u2003", "\x0c"]
 
 
@@ -141,7 +152,7 @@ def make_object(lc, seq, rng, allow_shuffle=True):
         # one path per process, overwritten every time (a scratch file reused for one sequence after another, often of the same size)
         path = os.path.join(d, "query-%d.fasta" % os.getpid())
         with open(path, "w") as f:
-            f.write(">made by the harness\n" + "\n".join(seq[i:i + 60] for i in range(0, len(seq), 60)) + "\n")
+            f.write(">made by the harness\n" + "\n".join(seq[i:i + 60] for i in range(0, len(seq), 60)) + rng.choice(["\n", ""]))
         out = common.call(lambda: lc.SP(sequenceFile=path))
         if out[0] == "ok":
             return out[1], seq, "from a FASTA file (sequenceFile=)"
